@@ -27,7 +27,7 @@ from ..corpus import (
     unparse,
     walk_local,
 )
-from ..flow import ENTRY, EXIT, get_cfg
+from ..flow import ENTRY, EXIT, facts, get_cfg
 from ..mutant import Mutant
 from ..report import Report
 from .common import find_node, rule
@@ -50,10 +50,14 @@ META = {
         "filter_sphinx_inventories a role inference over the nested loops (inventory key / domain / object type / name, "
         "item fields) shows that each coordinate is tested against its own filter, that all four tests dominate every yield, "
         "that the InvMatch fields are filled from the same roles in both representations (the '-' text normalisation agrees "
-        "with from_sphinx) and that iteration is over the mappings' own order. R4: callers hand the filters on under the same "
+        "with from_sphinx), that iteration is over the mappings' own order, that every loop visits every entry of its level "
+        "(the iterable is never narrowed by using a filter pattern as a literal key unless that alternative is chosen only "
+        "under `'*' not in <filter>`), that no break/return cuts the enumeration short and that entries are skipped only "
+        "after a failed wildcard test. R4: callers hand the filters on under the same "
         "roles (href parts inv:domain:type#target, keyword pass-through, CLI options); the inv: link path emits IREF_MISSING "
         "exactly once and no reference for 0 matches, nothing for 1, IREF_AMBIGUOUS exactly once for >1 (evaluated over the "
-        "abstract match count on the CFG), uses matches[0] and builds refuri as join(base_url, loc) if base_url else loc."
+        "abstract match count on the CFG; star-unpacking `first, *rest = matches` and tests on the rest are understood; an "
+        "emission extracted into a helper that emits exactly once is followed one level), uses the first match and builds refuri as join(base_url, loc) if base_url else loc."
     ),
     "not_decided": "matching results as values for concrete (pattern, name) pairs beyond what the extracted transducer implies; behaviour of re itself; contents of loaded inventories; URL joining semantics of posixpath.join",
     "trusted_base": ["CPython ast", "CPython re._parser (regex fragment classification)", "the role tables in this module (mapping layout of InventoryType / Sphinx named_inventory)"],
@@ -79,10 +83,9 @@ def _defs_of(fi: FunctionInfo, name: str) -> list[ast.expr]:
                 elif isinstance(t, (ast.Tuple, ast.List)):
                     for i, e in enumerate(t.elts):
                         if isinstance(e, ast.Name) and e.id == name:
-                            if isinstance(n.value, (ast.Tuple, ast.List)) and len(n.value.elts) == len(t.elts):
-                                out.append(n.value.elts[i])
-                            else:
-                                out.append(ast.Subscript(value=n.value, slice=ast.Constant(i), ctx=ast.Load()))
+                            if any(isinstance(x, ast.Starred) for x in t.elts[:i]):
+                                raise Unsupported(f"{fi.qualname}: {name} is bound after a star-target in `{short(n, 50)}`")
+                            out.append(_elem_source(n.value, i))
         elif isinstance(n, ast.AnnAssign) and isinstance(n.target, ast.Name) and n.target.id == name and n.value is not None:
             out.append(n.value)
         elif isinstance(n, (ast.AugAssign,)) and isinstance(n.target, ast.Name) and n.target.id == name:
@@ -92,6 +95,32 @@ def _defs_of(fi: FunctionInfo, name: str) -> list[ast.expr]:
         elif isinstance(n, ast.NamedExpr) and n.target.id == name:
             raise Unsupported(f"{fi.qualname}: walrus assignment to {name}")
     return out
+
+
+def _is_none_padding(e: ast.expr) -> bool:
+    """`[None] * k`, `k * [None]`, `[None, None]`, `(None,) * k`: a sequence of None of some length."""
+    if isinstance(e, (ast.List, ast.Tuple)):
+        return bool(e.elts) and all(isinstance(x, ast.Constant) and x.value is None for x in e.elts)
+    if isinstance(e, ast.BinOp) and isinstance(e.op, ast.Mult):
+        return _is_none_padding(e.left) or _is_none_padding(e.right)
+    return False
+
+
+def _elem_source(seq: ast.expr, i: int) -> ast.expr:
+    """Where element ``i`` of the sequence expression ``seq`` comes from (or None when the sequence is shorter).
+
+    Understood: literals, `P + <None padding>`, prefix slices `X[:k]`, list(X)/tuple(X); otherwise `seq[i]`."""
+    if isinstance(seq, (ast.Tuple, ast.List)) and not any(isinstance(x, ast.Starred) for x in seq.elts) and i < len(seq.elts):
+        return seq.elts[i]
+    if isinstance(seq, ast.BinOp) and isinstance(seq.op, ast.Add) and _is_none_padding(seq.right):
+        return _elem_source(seq.left, i)  # element i of the left operand if present, else None
+    if isinstance(seq, ast.Subscript) and isinstance(seq.slice, ast.Slice) and seq.slice.step is None and (seq.slice.lower is None or (isinstance(seq.slice.lower, ast.Constant) and seq.slice.lower.value == 0)):
+        up = seq.slice.upper
+        if up is None or (isinstance(up, ast.Constant) and type(up.value) is int and i < up.value):
+            return _elem_source(seq.value, i)
+    if isinstance(seq, ast.Call) and isinstance(seq.func, ast.Name) and seq.func.id in ("list", "tuple") and len(seq.args) == 1 and not seq.keywords:
+        return _elem_source(seq.args[0], i)
+    return ast.Subscript(value=seq, slice=ast.Constant(i), ctx=ast.Load())
 
 
 def _alias_of_param(e: ast.expr, fi: FunctionInfo, depth: int = 0) -> str | None:
@@ -733,6 +762,8 @@ class Kinds:
         self.binder: dict[str, ast.AST] = {}  # name -> the loop / assignment that binds it
         self.order_breaks: list[tuple[ast.For, str]] = []
         self.loops: list[ast.For] = []
+        self.filters = [p for p in fi.params[1:] if p in FILTER_ROLE]
+        self.restricted: dict[ast.For, list[tuple[ast.expr, list]]] = {}  # loop -> alternatives of its iterable that are built from a filter
         if not fi.params:
             raise Unsupported(f"{fi.qualname} has no parameter")
         self.kinds[fi.params[0]] = root_kind
@@ -752,10 +783,34 @@ class Kinds:
         if isinstance(e, ast.Subscript) and isinstance(e.value, ast.Name) and isinstance(e.slice, ast.Constant):
             if self.rk == "native" and self.kinds.get(e.value.id) == "INVDATA" and e.slice.value == "objects":
                 return "OBJECTS"
-        if isinstance(e, ast.Subscript) and isinstance(e.value, ast.Name) and isinstance(e.slice, ast.Name):
-            if self.rk == "sphinx" and self.kinds.get(e.value.id) == "OTMAP" and self.kinds.get(e.slice.id) == "NAME":
-                return "ITEMTUP"
+        if isinstance(e, ast.Subscript) and not isinstance(e.slice, ast.Slice):
+            # mapping[key] -> the value role of that mapping level (whatever the key expression is)
+            mk = self.kind_of(e.value)
+            if mk in VAL_OF[self.rk] and mk != "INVS":
+                return VAL_OF[self.rk][mk]
         return None
+
+    def _iter_leaves(self, e: ast.expr, conds: list | None = None, depth: int = 0) -> list[tuple[ast.expr, list]]:
+        """Alternatives the iterated object can be, each with the (test, polarity) facts under which it is chosen:
+        conditional expressions and locals (one or several definitions) are resolved."""
+        conds = conds or []
+        if depth > 4:
+            raise Unsupported(f"{self.fi.qualname}: iterable defined through too many locals")
+        if isinstance(e, ast.IfExp):
+            return self._iter_leaves(e.body, conds + facts(e.test, True), depth + 1) + self._iter_leaves(e.orelse, conds + facts(e.test, False), depth + 1)
+        if isinstance(e, ast.Name) and e.id not in self.kinds and e.id not in self.fi.params:
+            defs = _defs_of(self.fi, e.id)
+            if defs:
+                cfg = get_cfg(self.fi)
+                out = []
+                for d in defs:
+                    try:
+                        g = list(cfg.guards(cfg.stmt_of(d)))
+                    except Unsupported:
+                        g = []
+                    out += self._iter_leaves(d, conds + g, depth + 1)
+                return out
+        return [(e, conds)]
 
     def _bind(self, target: ast.expr, kind: str | None, by: ast.AST) -> None:
         if kind is None:
@@ -785,9 +840,17 @@ class Kinds:
         if isinstance(it, ast.Call) and isinstance(it.func, ast.Attribute) and it.func.attr in ("items", "keys", "values") and not it.args:
             mode = it.func.attr
             base = it.func.value
-        k = self.kind_of(base)
-        if k is None or k not in KEY_OF[self.rk]:
+        leaves = self._iter_leaves(base)
+        full = {self.kind_of(x) for x, _ in leaves if self.kind_of(x) in KEY_OF[self.rk]}
+        partial = [(x, c) for x, c in leaves if self.kind_of(x) not in KEY_OF[self.rk]]
+        if len(full) != 1:
             raise Unsupported(f"{self.fi.qualname}: loop over `{short(n.iter, 50)}` - the role of the iterated mapping is not known")
+        for x, _ in partial:
+            if not _mentions(x, self.filters):
+                raise Unsupported(f"{self.fi.qualname}: loop over `{short(n.iter, 50)}` may iterate `{short(x, 40)}`, whose role is not known")
+        if partial:
+            self.restricted[n] = partial
+        k = full.pop()
         n._c19_kind = k  # type: ignore[attr-defined]
         if mode == "items":
             if not (isinstance(n.target, (ast.Tuple, ast.List)) and len(n.target.elts) == 2):
@@ -815,12 +878,14 @@ class Kinds:
         if k == "ITEMTUP":
             self._bind(t, "ITEMTUP" if isinstance(t, (ast.Tuple, ast.List)) else k, n)
         elif k is not None and isinstance(t, ast.Name):
-            self._bind(t, k, n)
+            if len(_defs_of(self.fi, t.id)) == 1:  # several definitions: resolved as alternatives where the name is iterated
+                self._bind(t, k, n)
 
     def norm(self, e: ast.expr) -> str:
         """Expression with local names replaced by their roles."""
         kinds = self.kinds
         fi = self.fi
+        filters = self.filters
 
         class T(ast.NodeTransformer):
             def visit_Name(self, node):
@@ -828,6 +893,8 @@ class Kinds:
                     return ast.Name(id=f"<{kinds[node.id]}>", ctx=node.ctx)
                 if node.id in ("None", "True", "False"):
                     return node
+                if node.id in filters:
+                    return ast.Name(id=f"<{node.id} filter>", ctx=node.ctx)
                 raise Unsupported(f"{fi.qualname}: name {node.id} in `{short(e, 50)}` has no known role")
 
         fresh = ast.parse(ast.unparse(e), mode="eval").body  # a copy without the corpus' parent links
@@ -858,7 +925,7 @@ FILTER_FUNCS = {"inventory:filter_inventories": "native", "inventory:filter_sphi
 
 @rule("C19.R3")
 def r3_pairing(corpus: Corpus, rep: Report, tier: str):
-    rep.rule("C19.R3", "both filter functions test inventory/domain/type/name against invs/domains/otypes/targets, all four tests dominate the yield, InvMatch fields come from the same roles, iteration keeps mapping order")
+    rep.rule("C19.R3", "both filter functions test inventory/domain/type/name against invs/domains/otypes/targets, all four tests dominate the yield, InvMatch fields come from the same roles, iteration keeps mapping order, every entry is visited (no literal-key shortcut, early exit or unrelated skip)")
     g = get_callgraph(corpus)
     mw = corpus.func("inventory:match_with_wildcard")
     fields = _invmatch_fields(corpus)
@@ -911,6 +978,23 @@ def r3_pairing(corpus: Corpus, rep: Report, tier: str):
             for t, pol in cfg.guards(st):
                 if pol and isinstance(t, ast.Call) and id(t) in tested and tested[id(t)][1]:
                     have.add(tested[id(t)][0])
+                elif isinstance(t, ast.BoolOp) and isinstance(t.op, ast.Or) == pol:
+                    # a disjunction that holds - `f is None or match_with_wildcard(x, f)` or the false edge of
+                    # `f is not None and not match_with_wildcard(x, f)`: an omitted filter matches anyway
+                    ks = set()
+                    for v in t.values:
+                        vp = pol
+                        while isinstance(v, ast.UnaryOp) and isinstance(v.op, ast.Not):
+                            v, vp = v.operand, not vp
+                        nf = _filter_none_test(v, kd.filters)
+                        if vp and isinstance(v, ast.Call) and id(v) in tested and tested[id(v)][1]:
+                            ks.add(tested[id(v)][0])
+                        elif nf is not None and nf[1] == vp:
+                            ks.add(FILTER_ROLE[nf[0]])
+                        else:
+                            ks.add("?")
+                    if len(ks) == 1 and "?" not in ks:
+                        have.add(ks.pop())
             for kind in ("INV", "DOMAIN", "OTYPE", "NAME"):
                 k = f"{fi.fq}|yield is guarded by the {kind} test"
                 if kind in have:
@@ -945,6 +1029,8 @@ def r3_pairing(corpus: Corpus, rep: Report, tier: str):
                     rep.ok("C19.R3", k, fi.module.site(given[f]), got)
                 elif f in COORD_FIELDS and got in {f"<{x}>" for x in FILTER_ROLE.values()} or (f not in COORD_FIELDS and got in set(exp.values()) | {f"<{x}>" for x in TUPLE_KINDS}):
                     rep.violation("C19.R3", k, fi.module.site(given[f]), f"InvMatch.{f} is filled from {got}, expected {exp[f]}")
+                elif " filter>" in got:
+                    rep.violation("C19.R3", k, fi.module.site(given[f]), f"InvMatch.{f} is computed from the filter pattern itself (`{got}`), expected {exp[f]}: the pattern is used as a literal name instead of being matched")
                 elif f == "text" and rk == "sphinx":
                     rep.violation("C19.R3", k, fi.module.site(given[f]), f"InvMatch.text is computed as `{got}` but from_sphinx (the native image of the same data) computes `{exp[f]}`: the two representations yield different entries")
                 else:
@@ -957,7 +1043,103 @@ def r3_pairing(corpus: Corpus, rep: Report, tier: str):
                 rep.violation("C19.R3", k, fi.module.site(loop), f"the loop iterates `{short(loop.iter, 50)}`: `{br[0]}` replaces the mapping's own (inventory) order")
             else:
                 rep.ok("C19.R3", k, fi.module.site(loop))
-    rep.expect_min("C19.R3", 30, "2 functions x (4 pairings + 4 yield guards + 9 fields + 3-4 loops)")
+        # (e) every loop visits every entry of its level; the filter restricts the result only through match_with_wildcard
+        aware = _wildcard_aware(fi, kd.filters)
+        for loop in kd.loops:
+            k = f"{fi.fq}|loop over {loop._c19_kind} visits every entry"
+            part = [x for x, conds in kd.restricted.get(loop, []) if not _star_free(x, conds, kd.filters)]
+            if not part:
+                rep.ok("C19.R3", k, fi.module.site(loop), "literal-key shortcut only for patterns without '*'" if kd.restricted.get(loop) else "")
+            elif aware:
+                raise Unsupported(f"{fi.qualname}: the loop over {loop._c19_kind} may iterate `{short(part[0], 40)}` and the function tests the pattern for wildcard characters (`{short(aware, 40)}`) in a way that is not modelled")
+            else:
+                rep.violation(
+                    "C19.R3",
+                    k,
+                    fi.module.site(loop),
+                    f"the loop may iterate `{short(part[0], 50)}` instead of the whole {loop._c19_kind} mapping: the filter pattern is used as a literal key, so when it equals an entry's key "
+                    "(e.g. name `operator*` with pattern `operator*`, or name `a\\*` with pattern `a\\*`) the other entries are never tested and matching entries are dropped",
+                )
+        # (f) the enumeration is never cut short
+        k = f"{fi.fq}|enumeration is not cut short"
+        stops = [n for n in fi.local_nodes() if isinstance(n, (ast.Break, ast.Return)) and any(isinstance(a, ast.For) for a in ancestors(n))]
+        if not stops:
+            rep.ok("C19.R3", k, fi.site())
+        elif aware:
+            raise Unsupported(f"{fi.qualname}: `{type(stops[0]).__name__.lower()}` inside the filter loops next to a wildcard-character test (`{short(aware, 40)}`): a guarded early exit is not modelled")
+        else:
+            for st in stops:
+                rep.violation("C19.R3", k, fi.module.site(st), f"`{type(st).__name__.lower()}` inside the filter loops ends the enumeration early: entries after it are never tested, although a pattern with `*` (or an omitted pattern) can match any number of entries")
+        # (g) an entry is skipped only because one of its coordinates failed its test (or it has no domain:type key)
+        for st in fi.local_nodes():
+            if not isinstance(st, ast.Continue):
+                continue
+            p = parent(st)
+            if not (isinstance(p, ast.If) and st in p.body):
+                raise Unsupported(f"{fi.qualname}: unconditional / else-branch `continue`")
+
+            def skip_ok(t: ast.expr, pol: bool) -> bool:
+                """The condition can only hold when a wildcard test failed (or the key has no domain:type form)."""
+                if isinstance(t, ast.UnaryOp) and isinstance(t.op, ast.Not):
+                    return skip_ok(t.operand, not pol)
+                if isinstance(t, ast.BoolOp):
+                    # `a and b` holding needs every part to be a reason; `a and b` failing needs a failed part among tests only
+                    vals = t.values
+                    if isinstance(t.op, ast.And) == pol:
+                        # conjunction that holds: `f is not None and not match(x, f)` - the None test adds nothing
+                        real = [v for v in vals if not ((_filter_none_test(v, kd.filters) or (None, None))[1] is (not pol))]
+                        vals = real or vals
+                    return all(skip_ok(v, pol) for v in vals)
+                if isinstance(t, ast.Call) and id(t) in tested:
+                    return not pol
+                if isinstance(t, ast.Compare) and len(t.ops) == 1 and isinstance(t.left, ast.Constant) and t.left.value == ":" and kd.kind_of(t.comparators[0]) == "DOMOTYPE":
+                    return isinstance(t.ops[0], ast.NotIn) == pol
+                return False
+
+            if not skip_ok(p.test, True):
+                literal = [x for x in ast.walk(p.test) if isinstance(x, ast.Name) and x.id in kd.filters and not (isinstance(parent(x), ast.Call) and id(parent(x)) in tested) and _filter_none_test(parent(x), kd.filters) is None]
+                if literal and not aware:
+                    rep.violation("C19.R3", f"{fi.fq}|entries are skipped only after a failed wildcard test", fi.module.site(st), f"entries are skipped under `{short(p.test, 60)}`: the `{literal[0].id}` pattern is compared/looked up literally instead of being matched with its wildcard syntax, so entries that match the pattern are dropped")
+                else:
+                    raise Unsupported(f"{fi.qualname}: entries are skipped under `{short(p.test, 50)}`, which is not a failed wildcard test")
+    rep.expect_min("C19.R3", 36, "2 functions x (4 pairings + 4 yield guards + 9 fields + 3-4 loops x 2 + 1)")
+
+
+def _star_free(leaf: ast.expr, conds: list, filters: list[str]) -> bool:
+    """The alternative is only chosen when every filter it is built from contains no `*`
+    (a pattern without `*` consists of literal characters only - a backslash not followed by `*` is itself)."""
+    used = {x.id for x in ast.walk(leaf) if isinstance(x, ast.Name) and x.id in filters}
+    for f in used:
+        ok = False
+        for t, pol in conds:
+            if isinstance(t, ast.Compare) and len(t.ops) == 1 and isinstance(t.left, ast.Constant) and t.left.value == "*" and isinstance(t.comparators[0], ast.Name) and t.comparators[0].id == f:
+                if isinstance(t.ops[0], ast.NotIn) == pol and isinstance(t.ops[0], (ast.In, ast.NotIn)):
+                    ok = True
+        if not ok:
+            return False
+    return bool(used)
+
+
+def _filter_none_test(t: ast.expr, filters: list[str]) -> tuple[str, bool] | None:
+    """(filter, True) for `f is None`, (filter, False) for `f is not None`."""
+    for f in filters:
+        v = _is_none_test(t, f)
+        if v is not None:
+            return f, v
+    return None
+
+
+def _wildcard_aware(fi: FunctionInfo, filters: list[str]) -> ast.expr | None:
+    """A test of a filter pattern for the characters `*` / backslash (evidence of a deliberate literal-pattern shortcut)."""
+    for n in fi.local_nodes():
+        if isinstance(n, ast.Compare) and len(n.ops) == 1 and isinstance(n.ops[0], (ast.In, ast.NotIn)) and isinstance(n.left, ast.Constant) and isinstance(n.left.value, str) and set(n.left.value) & {"*", "\\"}:
+            if _mentions(n.comparators[0], filters):
+                return n
+        if isinstance(n, ast.Call) and isinstance(n.func, ast.Attribute) and n.func.attr in ("find", "index", "count", "isalnum", "isidentifier", "translate") and _mentions(n.func.value, filters):
+            return n
+        if isinstance(n, ast.Call) and any(_mentions(a, filters) for a in n.args) and (dotted(n.func) or "").startswith("re."):
+            return n
+    return None
 
 
 # ---------------------------------------------------------------------------
@@ -997,6 +1179,8 @@ def _value_role(e: ast.expr, fi: FunctionInfo) -> str | None:
                 continue
             if isinstance(d, ast.Subscript) and isinstance(d.slice, ast.Constant) and isinstance(d.slice.value, int) and isinstance(d.value, ast.Name):
                 pd = _defs_of(fi, d.value.id)
+                while len(pd) == 1 and isinstance(pd[0], ast.Call) and isinstance(pd[0].func, ast.Name) and pd[0].func.id in ("list", "tuple") and len(pd[0].args) == 1 and not pd[0].keywords:
+                    pd = [pd[0].args[0]]
                 if len(pd) == 1 and isinstance(pd[0], ast.Call) and isinstance(pd[0].func, ast.Attribute) and pd[0].func.attr == "split" and len(pd[0].args) == 1 and isinstance(pd[0].args[0], ast.Constant) and pd[0].args[0].value == ":":
                     src = pd[0].func.value
                     if isinstance(src, ast.Attribute) and src.attr == "path" and _urlparse_var(src.value, fi):
@@ -1034,15 +1218,27 @@ PASS_THROUGH = [
 ]
 
 
-def _ev_len(t: ast.expr, m: str, n: int):
-    """Three-valued evaluation of a test under len(m) == n (None = does not depend on m alone)."""
-    if isinstance(t, ast.Name) and t.id == m:
-        return n > 0
+def _ev_len(t: ast.expr, lens: dict[str, int], n: int):
+    """Three-valued evaluation of a test when the match list has n entries (None = not decided by n alone).
+
+    ``lens`` maps the match list itself to 0 and every star-rest taken from it
+    (``first, *rest = matches`` -> rest: 1) to the number of entries split off in front."""
+
+    def size(name: str) -> int:
+        return max(0, n - lens[name])
+
+    def len_of(e):
+        if isinstance(e, ast.Call) and isinstance(e.func, ast.Name) and e.func.id == "len" and len(e.args) == 1 and isinstance(e.args[0], ast.Name) and e.args[0].id in lens:
+            return size(e.args[0].id)
+        return None
+
+    if isinstance(t, ast.Name) and t.id in lens:
+        return size(t.id) > 0
     if isinstance(t, ast.UnaryOp) and isinstance(t.op, ast.Not):
-        v = _ev_len(t.operand, m, n)
+        v = _ev_len(t.operand, lens, n)
         return None if v is None else not v
     if isinstance(t, ast.BoolOp):
-        vals = [_ev_len(v, m, n) for v in t.values]
+        vals = [_ev_len(v, lens, n) for v in t.values]
         if isinstance(t.op, ast.And):
             if any(v is False for v in vals):
                 return False
@@ -1050,47 +1246,80 @@ def _ev_len(t: ast.expr, m: str, n: int):
         if any(v is True for v in vals):
             return True
         return False if all(v is False for v in vals) else None
-
-    def is_len(e):
-        return isinstance(e, ast.Call) and isinstance(e.func, ast.Name) and e.func.id == "len" and len(e.args) == 1 and isinstance(e.args[0], ast.Name) and e.args[0].id == m
-
-    if is_len(t):
-        return n > 0
+    if len_of(t) is not None:
+        return len_of(t) > 0
     if isinstance(t, ast.Compare) and len(t.ops) == 1:
         l, r, op = t.left, t.comparators[0], t.ops[0]
-        a = n if is_len(l) else (l.value if isinstance(l, ast.Constant) and type(l.value) is int else None)
-        b = n if is_len(r) else (r.value if isinstance(r, ast.Constant) and type(r.value) is int else None)
-        if is_len(l) or is_len(r):
+        a = len_of(l) if len_of(l) is not None else (l.value if isinstance(l, ast.Constant) and type(l.value) is int else None)
+        b = len_of(r) if len_of(r) is not None else (r.value if isinstance(r, ast.Constant) and type(r.value) is int else None)
+        if len_of(l) is not None or len_of(r) is not None:
             if a is None or b is None:
-                other = r if is_len(l) else l
+                other = r if len_of(l) is not None else l
                 # `len(matches) > show_num`: depends on a second value -> unknown, both edges are followed
-                return None if not _mentions(other, m) else _unsupported_len(t)
+                return None if not _mentions(other, lens) else _unsupported_len(t)
             for cls, fn in ((ast.Gt, a > b), (ast.GtE, a >= b), (ast.Lt, a < b), (ast.LtE, a <= b), (ast.Eq, a == b), (ast.NotEq, a != b)):
                 if isinstance(op, cls):
                     return fn
-    if _mentions(t, m):
+    if _mentions(t, lens):
         _unsupported_len(t)
     return None
 
 
-def _mentions(t: ast.AST, m: str) -> bool:
-    return any(isinstance(x, ast.Name) and x.id == m for x in ast.walk(t))
+def _mentions(t: ast.AST, names) -> bool:
+    names = {names} if isinstance(names, str) else set(names)
+    return any(isinstance(x, ast.Name) and x.id in names for x in ast.walk(t))
 
 
 def _unsupported_len(t):
     raise Unsupported(f"test `{short(t, 50)}` on the match list is outside the understood subset")
 
 
-def _counts_under(cfg, m: str, n: int, weight) -> set[int]:
-    """Event counts (saturating at 2) over the ENTRY->EXIT paths feasible when len(m) == n."""
+class Unpack:
+    """``a, b, *rest = matches``: which entry each name receives, and for which sizes it raises."""
+
+    def __init__(self, stmt: ast.Assign, m: str):
+        self.stmt = stmt
+        t = stmt.targets[0]
+        self.elems: dict[str, int] = {}  # name -> index (negative = counted from the end)
+        self.star: str | None = None
+        star_at = [i for i, e in enumerate(t.elts) if isinstance(e, ast.Starred)]
+        if len(star_at) > 1 or not all(isinstance(e.value if isinstance(e, ast.Starred) else e, ast.Name) for e in t.elts):
+            raise Unsupported(f"unpacking `{short(stmt, 50)}` of the match list")
+        self.fixed = len(t.elts) - len(star_at)
+        self.before = star_at[0] if star_at else len(t.elts)
+        for i, e in enumerate(t.elts):
+            if isinstance(e, ast.Starred):
+                self.star = e.value.id
+            elif i < self.before:
+                self.elems[e.id] = i
+            else:
+                self.elems[e.id] = i - len(t.elts)
+
+    def raises(self, n: int) -> bool:
+        return n < self.fixed if self.star is not None else n != self.fixed
+
+
+def _unpacks_of(fi: FunctionInfo, m: str) -> list[Unpack]:
+    out = []
+    for st in fi.local_nodes():
+        if isinstance(st, ast.Assign) and len(st.targets) == 1 and isinstance(st.targets[0], (ast.Tuple, ast.List)) and isinstance(st.value, ast.Name) and st.value.id == m:
+            out.append(Unpack(st, m))
+    return out
+
+
+def _counts_under(cfg, lens: dict[str, int], unpacks: list, n: int, weight) -> set[int]:
+    """Event counts (saturating at 2) over the ENTRY->EXIT paths feasible when the match list has n entries."""
+    raising = {u.stmt for u in unpacks if u.raises(n)}
     succ = {}
     for node, ss in cfg.succ.items():
         if isinstance(node, ast.If):
-            v = _ev_len(node.test, m, n)
+            v = _ev_len(node.test, lens, n)
             if v is True:
                 ss = [s for s in ss if s == ("T", node)]
             elif v is False:
                 ss = [s for s in ss if s == ("F", node)]
+        elif node in raising:
+            ss = []  # ValueError: not enough / too many values to unpack
         succ[node] = ss
     inn: dict[object, set[int]] = {ENTRY: {0}}
     out: dict[object, set[int]] = {}
@@ -1159,6 +1388,7 @@ def r4_link_paths(corpus: Corpus, rep: Report, tier: str):
         for m in sorted(missing):
             rep.violation("C19.R4", f"{fi.fq}|{'/'.join(sorted(callees))}({m}=)", fi.module.site(call), f"the {FILTER_ROLE[m]} filter is not handed on: it is silently ignored")
     # (b) match-count paths
+    g = get_callgraph(corpus)
     for fq, has_missing, rk in LINK_FUNCS:
         fi = corpus.func(fq)
         cfg = get_cfg(fi)
@@ -1175,8 +1405,29 @@ def r4_link_paths(corpus: Corpus, rep: Report, tier: str):
         else:
             rep.ok("C19.R4", k, fi.module.site(mdef))
 
+        def emits(f: FunctionInfo, tag: str):
+            return [c for c in f.local_nodes() if isinstance(c, ast.Call) and any((dotted(x) or "").endswith(f"MystWarnings.{tag}") for x in [*c.args, *[kw.value for kw in c.keywords]])]
+
         def ev_calls(tag: str):
-            return [c for c in fi.local_nodes() if isinstance(c, ast.Call) and any((dotted(x) or "").endswith(f"MystWarnings.{tag}") for x in [*c.args, *[kw.value for kw in c.keywords]])]
+            direct = emits(fi, tag)
+            if direct:
+                return direct
+            # emission extracted into a helper: a call of a package function that emits the tag exactly once on every path
+            out = []
+            for c in fi.local_nodes():
+                if not isinstance(c, ast.Call):
+                    continue
+                for tf in g.flat_targets(g.resolve_call(c, fi)):
+                    if tf.fq == fi.fq or tf.is_lambda or not emits(tf, tag):
+                        continue
+                    tcfg = get_cfg(tf)
+                    ws: dict[object, int] = {}
+                    for e in emits(tf, tag):
+                        ws[tcfg.stmt_of(e)] = ws.get(tcfg.stmt_of(e), 0) + 1
+                    if tcfg.counts(ENTRY, [EXIT], lambda x: ws.get(x, 0) if not isinstance(x, (tuple, str)) else 0).get(EXIT) != {1}:
+                        raise Unsupported(f"{fi.qualname}: {tag} is emitted by helper {tf.qualname} on some paths only; not modelled")
+                    out.append(c)
+            return out
 
         miss, amb = ev_calls("IREF_MISSING"), ev_calls("IREF_AMBIGUOUS")
         refs = [c for c in fi.local_nodes() if isinstance(c, ast.Call) and fi.module.resolve(dotted(c.func) or "") == "docutils.nodes.reference"]
@@ -1190,46 +1441,68 @@ def r4_link_paths(corpus: Corpus, rep: Report, tier: str):
                 stmts[st] = stmts.get(st, 0) + 1
             return lambda x: stmts.get(x, 0) if not isinstance(x, (tuple, str)) else 0
 
-        consts = [x.value for t in fi.local_nodes() if isinstance(t, ast.Compare) and _mentions(t, m) for x in ast.walk(t) if isinstance(x, ast.Constant) and type(x.value) is int]
-        top = max([2, *consts]) + 1
+        unpacks = _unpacks_of(fi, m)
+        lens = {m: 0}
+        for u in unpacks:
+            if u.star is not None:
+                if _defs_of(fi, u.star):  # bound by the unpacking only
+                    raise Unsupported(f"{fi.qualname}: {u.star} is assigned more than once")
+                lens[u.star] = u.fixed
+        consts = [x.value + max(lens.values()) for t in fi.local_nodes() if isinstance(t, ast.Compare) and _mentions(t, lens) for x in ast.walk(t) if isinstance(x, ast.Constant) and type(x.value) is int]
+        top = max([2, *consts, *[u.fixed for u in unpacks]]) + 1
         expect = {0: (1 if has_missing else 0, 0, 0), 1: (0, 0, 1)}
         label = {0: "no match", 1: "exactly one match"}
         results: dict[str, list[str]] = {"no match": [], "exactly one match": [], "several matches": []}
         for n in range(0, top + 1):
             want = expect.get(n, (0, 1, 1))
-            got = (_counts_under(cfg, m, n, weight_of(miss)), _counts_under(cfg, m, n, weight_of(amb)), _counts_under(cfg, m, n, weight_of(refs)))
-            if not got[2]:
-                raise Unsupported(f"{fi.qualname}: no normal path to the exit for {n} match(es)")
+            got = tuple(_counts_under(cfg, lens, unpacks, n, weight_of(ev)) for ev in (miss, amb, refs))
             lab = label.get(n, "several matches")
+            shown = f"{n}+" if n == top else str(n)
+            if not got[2]:
+                results[lab].append(f"with {shown} match(es) no path reaches the normal exit: the function raises instead of rendering the link")
+                continue
             for name, w, gset in zip(("IREF_MISSING warning", "IREF_AMBIGUOUS warning", "reference node"), want, got):
                 if gset != {w}:
                     cnt = "/".join({0: "none", 1: "one", 2: "two or more"}[x] for x in sorted(gset))
-                    results[lab].append(f"with {n if n < top else str(n) + '+'} match(es) the paths produce {cnt} {name}(s), expected exactly {w}")
+                    results[lab].append(f"with {shown} match(es) the paths produce {cnt} {name}(s), expected exactly {w}")
         for lab, problems in results.items():
             k = f"{fi.fq}|{lab}"
             if problems:
                 rep.violation("C19.R4", k, fi.site(), "; ".join(dict.fromkeys(problems)))
             else:
                 rep.ok("C19.R4", k, fi.site())
-        # (c) first match
+        # (c) first match: `match = matches[0]` or `match, *others = matches`
         mvars = []
+        k = f"{fi.fq}|the first match is used"
         for n in fi.local_nodes():
-            if isinstance(n, ast.Subscript) and isinstance(n.value, ast.Name) and n.value.id == m and isinstance(n.ctx, ast.Load):
+            if isinstance(n, ast.Subscript) and isinstance(n.value, ast.Name) and n.value.id in lens and isinstance(n.ctx, ast.Load):
                 if isinstance(n.slice, ast.Slice):
                     continue  # matches[:show_num] in the message
                 p = parent(n)
-                k = f"{fi.fq}|the first match is used"
                 idx = n.slice.value if isinstance(n.slice, ast.Constant) else (-n.slice.operand.value if isinstance(n.slice, ast.UnaryOp) and isinstance(n.slice.op, ast.USub) and isinstance(n.slice.operand, ast.Constant) else None)
-                if idx is None:
+                if idx is None or type(idx) is not int:
                     raise Unsupported(f"{fi.qualname}: `{short(n, 30)}`")
+                su = [u for u in unpacks if u.star == n.value.id]
+                if su:  # index into a star-rest: shift by the entries split off in front / behind
+                    idx = idx + su[0].before if idx >= 0 else idx - (su[0].fixed - su[0].before)
                 if idx == 0:
                     rep.ok("C19.R4", k, fi.module.site(n))
                 else:
-                    rep.violation("C19.R4", k, fi.module.site(n), f"`{short(n, 30)}` selects entry {idx}, not the first matching entry")
+                    rep.violation("C19.R4", k, fi.module.site(n), f"`{short(n, 30)}` selects entry {idx} of the matches, not the first matching entry")
                 if isinstance(p, ast.Assign) and len(p.targets) == 1 and isinstance(p.targets[0], ast.Name):
                     mvars.append(p.targets[0].id)
+        for u in unpacks:
+            for name, idx in u.elems.items():
+                used = any(isinstance(x, ast.Name) and x.id == name and isinstance(x.ctx, ast.Load) for x in fi.local_nodes())
+                if not used:
+                    continue
+                if idx == 0:
+                    rep.ok("C19.R4", k, fi.module.site(u.stmt))
+                else:
+                    rep.violation("C19.R4", k, fi.module.site(u.stmt), f"`{short(u.stmt, 40)}` binds {name} to entry {idx} of the matches, not the first matching entry")
+                mvars.append(name)
         if len(mvars) != 1:
-            raise Unsupported(f"{fi.qualname}: `match = {m}[0]` not found")
+            raise Unsupported(f"{fi.qualname}: the variable holding the selected match was not identified ({mvars})")
         mv = mvars[0]
         # (d) refuri
         uris = []
@@ -1325,6 +1598,11 @@ def mutants(corpus: Corpus):
             add("c19-f14-end-flush-reverted", "C19.R1", inv, post[0], "pass", "end of pattern, backslash pending", canary=True)
         else:
             out.append(("c19-f14-end-flush-reverted", "F14 is not repaired on this tree: the end-of-pattern violation itself is live"))
+    # 647520d (re.DOTALL): revert
+    if comp is not None and (len(comp.args) > 1 or comp.keywords):
+        add("c19-dotall-reverted", "C19.R1", inv, comp, f"re.compile({unparse(comp.args[0])})", "wildcard fragment matches every character")
+    else:
+        out.append(("c19-dotall-reverted", "re.compile carries no flags on this tree"))
     # ---- R2
     mw = inv.func("match_with_wildcard")
     fm = find_node(mw, lambda n: isinstance(n, ast.Attribute) and n.attr == "fullmatch")
@@ -1338,7 +1616,7 @@ def mutants(corpus: Corpus):
     fn = inv.func("filter_inventories")
     fs = inv.func("filter_sphinx_inventories")
     c = find_node(fn, lambda n: isinstance(n, ast.Call) and unparse(n.func) == "match_with_wildcard" and unparse(n.args[1]) == "otypes")
-    add("c19-native-otype-tested-against-domains", "C19.R3", inv, c.args[1] if c is not None else None, "domains", "OTYPE is matched", canary=True)
+    add("c19-native-otype-tested-against-domains", "C19.R3", inv, c.args[1] if c is not None else None, "domains", "OTYPE is matched")
     c = find_node(fn, lambda n: isinstance(n, ast.If) and "targets" in unparse(n.test))
     add("c19-native-name-test-dropped", "C19.R3", inv, c.test if c is not None else None, "True", "guarded by the NAME test")
     sp = find_node(fs, lambda n: isinstance(n, ast.Assign) and isinstance(n.value, ast.Call) and isinstance(n.value.func, ast.Attribute) and n.value.func.attr == "split")
@@ -1363,12 +1641,34 @@ def mutants(corpus: Corpus):
         kd = {k.arg: k for k in ym.keywords}
         if "loc" in kd and "text" in kd:
             add("c19-native-loc-from-text", "C19.R3", inv, kd["loc"].value, unparse(kd["text"].value), "InvMatch.loc")
+    # class "the pattern used as a literal key / enumeration cut short" (entries bypass the wildcard test)
+    if lp is not None and isinstance(lp.iter, ast.Call) and isinstance(lp.iter.func, ast.Attribute):
+        mp = unparse(lp.iter.func.value)
+        add("c19-native-exact-hit-shortcut", "C19.R3", inv, lp.iter.func.value, f"({{targets: {mp}[targets]}} if targets in {mp} else {mp})", "OTMAP visits every entry", canary=True)
+    ld = find_node(fn, lambda n: isinstance(n, ast.For) and "'objects'" in unparse(n.iter))
+    if ld is not None and isinstance(ld.iter, ast.Call) and isinstance(ld.iter.func, ast.Attribute):
+        mp = unparse(ld.iter.func.value)
+        add("c19-native-domain-exact-hit-shortcut", "C19.R3", inv, ld.iter.func.value, f"({{domains: {mp}[domains]}} if domains in {mp} else {mp})", "OBJECTS visits every entry")
+    ls = find_node(fs, lambda n: isinstance(n, ast.For) and isinstance(n.target, ast.Name) and isinstance(n.iter, ast.Name))
+    if ls is not None:
+        add("c19-sphinx-exact-hit-shortcut", "C19.R3", inv, ls.iter, f"([targets] if targets in {ls.iter.id} else {ls.iter.id})", "OTMAP visits every entry")
+    ys = find_node(fn, lambda n: isinstance(n, ast.Expr) and isinstance(n.value, ast.Yield))
+    if ys is not None:
+        ind = " " * ys.col_offset
+        add("c19-native-stop-after-first-hit", "C19.R3", inv, ys, ast.get_source_segment(inv.src, ys) + f"\n{ind}break", "enumeration is not cut short")
     # ---- R4
     rl = base.func("DocutilsRenderer.render_link_inventory")
     m0 = find_node(rl, lambda n: isinstance(n, ast.Subscript) and unparse(n) == "matches[0]")
     add("c19-last-match-used", "C19.R4", base, m0, "matches[-1]", "first match", canary=True)
     amb = find_node(rl, lambda n: isinstance(n, ast.If) and unparse(n.test) == "len(matches) > 1")
     add("c19-ambiguous-threshold-off-by-one", "C19.R4", base, amb.test if amb is not None else None, "len(matches) > 2", "several matches")
+    if amb is not None:
+        # class "count test on a derived (star-rest) list is off by one"
+        seg = ast.get_source_segment(base.src, amb)
+        tseg = ast.get_source_segment(base.src, amb.test)
+        ind = " " * amb.col_offset
+        add("c19-ambiguous-test-on-rest-off-by-one", "C19.R4", base, amb, f"_first, *others = matches\n{ind}" + seg.replace(tseg, "len(others) > 1", 1), "several matches")
+        add("c19-ambiguous-test-on-rest-needs-none", "C19.R4", base, amb, f"_first, *others = matches\n{ind}" + seg.replace(tseg, "len(others) >= 0", 1), "exactly one match")
     nm = find_node(rl, lambda n: isinstance(n, ast.If) and unparse(n.test) == "not matches")
     add("c19-missing-branch-falls-through", "C19.R4", base, nm.body[-1] if nm is not None and isinstance(nm.body[-1], ast.Return) else None, "pass", "no match")
     if amb is not None:
